@@ -1356,6 +1356,13 @@ def sand(*xs):
     return r
 
 
+def sor(*xs):
+    r = None
+    for x in xs:
+        r = x if r is None else (r | x)
+    return r
+
+
 def implies(a, b):
     if isinstance(a, (bool, numpy.bool_)):
         return b if a else True
